@@ -368,19 +368,25 @@ pub unsafe extern "C" fn lseek(fd: c_int, off: i64, whence: c_int) -> i64 {
     lseek64(fd, off, whence)
 }
 
-unsafe fn fill_stat(st: *mut libc::stat64, is_dir: bool, len: u64) {
+unsafe fn fill_stat(st: *mut libc::stat64, is_dir: bool, len: u64, mtime_ns: u64) {
     std::ptr::write_bytes(st as *mut u8, 0, std::mem::size_of::<libc::stat64>());
     (*st).st_mode = if is_dir { libc::S_IFDIR | 0o755 } else { libc::S_IFREG | 0o644 };
     (*st).st_size = len as i64;
     (*st).st_nlink = 1;
     (*st).st_blksize = 4096;
     (*st).st_blocks = ((len + 511) / 512) as i64;
+    (*st).st_mtime = (mtime_ns / 1_000_000_000) as i64;
+    (*st).st_mtime_nsec = (mtime_ns % 1_000_000_000) as i64;
+    (*st).st_ctime = (*st).st_mtime;
+    (*st).st_ctime_nsec = (*st).st_mtime_nsec;
+    (*st).st_atime = (*st).st_mtime;
+    (*st).st_atime_nsec = (*st).st_mtime_nsec;
 }
 
-unsafe fn stat_result(r: Result<(bool, u64), i32>, st: *mut libc::stat64) -> c_int {
+unsafe fn stat_result(r: Result<(bool, u64, u64), i32>, st: *mut libc::stat64) -> c_int {
     match r {
-        Ok((d, l)) => {
-            fill_stat(st, d, l);
+        Ok((d, l, m)) => {
+            fill_stat(st, d, l, m);
             0
         }
         Err(e) => {
@@ -435,7 +441,7 @@ pub unsafe extern "C" fn statx(dirfd: c_int, path: *const c_char, flags: c_int, 
     };
     if let Some(r) = r {
         return match r {
-            Ok((is_dir, len)) => {
+            Ok((is_dir, len, mtime_ns)) => {
                 if !buf.is_null() {
                     std::ptr::write_bytes(buf as *mut u8, 0, std::mem::size_of::<libc::statx>());
                     (*buf).stx_mask = libc::STATX_BASIC_STATS;
@@ -444,6 +450,11 @@ pub unsafe extern "C" fn statx(dirfd: c_int, path: *const c_char, flags: c_int, 
                     (*buf).stx_nlink = 1;
                     (*buf).stx_blksize = 4096;
                     (*buf).stx_blocks = (len + 511) / 512;
+                    (*buf).stx_mtime.tv_sec = (mtime_ns / 1_000_000_000) as i64;
+                    (*buf).stx_mtime.tv_nsec = (mtime_ns % 1_000_000_000) as u32;
+                    (*buf).stx_ctime = (*buf).stx_mtime;
+                    (*buf).stx_atime = (*buf).stx_mtime;
+                    (*buf).stx_btime = (*buf).stx_mtime;
                 }
                 0
             }
